@@ -9,6 +9,7 @@ import (
 	"hash/fnv"
 	"iter"
 	"net/url"
+	"runtime/debug"
 	"slices"
 	"sort"
 	"strconv"
@@ -236,15 +237,16 @@ const (
 )
 
 // replicaLists yields every list of at most two replica labels, each label a string of length 0..3 over
-// replicaAlpha (both orders of a pair, the same label twice, and the empty label included).
+// replicaAlpha (the empty label and the same label twice included). Pairs are unordered: the reference compares
+// replica labels as a multiset and both orders of a few pairs are in the hand-written sets of families B and D.
 func replicaLists() [][]string {
 	labels := stringsOver(replicaAlpha, 0, 3)
 	out := [][]string{nil}
 	for _, a := range labels {
 		out = append(out, []string{a})
 	}
-	for _, a := range labels {
-		for _, b := range labels {
+	for i, a := range labels {
+		for _, b := range labels[i:] {
 			out = append(out, []string{a, b})
 		}
 	}
@@ -279,6 +281,15 @@ func gen(r *vlib.R) iter.Seq[Case] {
 	r.Set("replica_label_lists", len(replicaAll))
 	r.Set("matcher_sets", len(matchersAll))
 	return func(yield func(Case) bool) {
+		// family R: every replica-label list (<= 2 labels of length <= 3 over {a b : , \}) on a range and on a series request
+		for _, rl := range replicaAll {
+			if !yield(Case{A: Req{Kind: 0, Tenant: "a", Query: "a", StepMs: 1000, Replicas: rl}}) {
+				return
+			}
+			if !yield(Case{A: Req{Kind: 2, Tenant: "a", Matchers: matcherPool[1], Replicas: rl}}) {
+				return
+			}
+		}
 		// family A: every tenant x every parseable query x the parameters next to free-text fields
 		for _, tn := range tenantsAll {
 			for _, q := range queries {
@@ -333,15 +344,6 @@ func gen(r *vlib.R) iter.Seq[Case] {
 				}
 			}
 		}
-		// family R: every replica-label list (<= 2 labels of length <= 3 over {a b : , \}) on a range and on a series request
-		for _, rl := range replicaAll {
-			if !yield(Case{A: Req{Kind: 0, Tenant: "a", Query: "a", StepMs: 1000, Replicas: rl}}) {
-				return
-			}
-			if !yield(Case{A: Req{Kind: 2, Tenant: "a", Matchers: matcherPool[1], Replicas: rl}}) {
-				return
-			}
-		}
 		// family E: the engine as the free text it is for the frontend (a querier rejects unknown engines), next to
 		// its neighbours in the key: query on the far left, partial response / replica labels / analyze on the right
 		for _, q := range queriesE {
@@ -375,10 +377,11 @@ func keyOf(q Req) (string, bool, error) {
 func TestCheck(t *testing.T) {
 	r := vlib.New(t, "C43")
 	defer r.Finish()
+	defer debug.SetGCPercent(debug.SetGCPercent(400)) // allocation-heavy (one HTTP request per case), small live heap
 	r.Rule("A: tenants (len<=2, thorough 3, over {a : , | - 1 \\}, those accepted by the resolver) x all parseable PromQL strings len<=3 over {a : 1 - { } \" , \\ `} x step x shard x replica sets; " +
 		"B: 2 tenants x 2 queries x full product step x max_source_resolution (each side of 5m/1h, auto) x shard x lookback x engine x 9 replica sets (orders, \"a,b\", \"a:\", [a\\ b], the empty label) x partial x analyze; " +
 		"C: tenants x label names over {a : , \\} len<=2 x 8 matcher sets x partial; D: series: tenants x matcher sets x replica sets x partial; " +
-		"R: every list of <=2 replica labels, each of length 0..3 over {a b : , \\}, on a range and on a series request; " +
+		"R: every list of <=2 replica labels (unordered pairs), each label of length 0..3 over {a b : , \\}, on a range and on a series request; " +
 		"E: engine as free text over {a : , \\} len<=2 x queries over {a :} x replica sets x partial x analyze; " +
 		"M: matcher lists (1 selector, 2 selectors, 1 selector with 2 matchers) with values len<=2 (quick: <=1 in the two-matcher forms) over {b \" \\ blank ] : ,}, plus 4 hand-written imitations, on label names / label values / series. " +
 		"All keys in one table. non-trivial = distinct requests whose tenant, query, label name, engine, a matcher or a replica label contains a separator or escape character")
